@@ -6,10 +6,12 @@ import (
 	"encoding/json"
 	"errors"
 	"fmt"
+	"io"
 	"log/slog"
 	"net"
 	"net/http"
 	"os"
+	"regexp"
 	"slices"
 	"strings"
 	"syscall"
@@ -696,20 +698,31 @@ func concScenarios() []*mc.Scenario {
 // silence redirects the process's stdout and stderr to /dev/null (fox's default log handler writes
 // there) and returns the function that restores them.
 func silence() func() {
-	devnull, err := os.OpenFile(os.DevNull, os.O_WRONLY, 0)
+	restore := captureFDs()
+	return func() { restore() }
+}
+
+// captureFDs redirects the process's stdout and stderr (where fox's default log handler writes) to an unlinked
+// temporary file; the returned function restores them and returns what was written.
+func captureFDs() func() string {
+	tmp, err := os.CreateTemp("", "c15-capture-*")
 	if err != nil {
-		return func() {}
+		return func() string { return "" }
 	}
+	os.Remove(tmp.Name())
 	o1, _ := syscall.Dup(1)
 	o2, _ := syscall.Dup(2)
-	syscall.Dup2(int(devnull.Fd()), 1)
-	syscall.Dup2(int(devnull.Fd()), 2)
-	return func() {
+	syscall.Dup2(int(tmp.Fd()), 1)
+	syscall.Dup2(int(tmp.Fd()), 2)
+	return func() string {
 		syscall.Dup2(o1, 1)
 		syscall.Dup2(o2, 2)
 		syscall.Close(o1)
 		syscall.Close(o2)
-		devnull.Close()
+		tmp.Seek(0, 0)
+		b, _ := io.ReadAll(tmp)
+		tmp.Close()
+		return string(b)
 	}
 }
 
@@ -720,12 +733,16 @@ type DefCase struct {
 	Val      int    `json:"val"`
 	Header   bool   `json:"header_written"`
 	Logger   bool   `json:"with_logger"`
+	// Pad: size of an ordinary request header (the request dump is part of the record)
+	Pad int `json:"pad,omitempty"`
 }
 
 var defNames = []string{"id", "method", "status", "location", "latency", "error", "route", "params", "host", "path", "stack", "msg", "time", "level", "source"}
 
 // evalDefault: Recovery() (and optionally Logger()) with fox's own default log handler, on a route
 // whose parameter is named like one of the attribute keys the handler formats specially.
+var ansiRe = regexp.MustCompile("\x1b\\[[0-9;]*m")
+
 func evalDefault(cs DefCase) (string, string) {
 	pvs := panicVals()
 	pv := pvs[cs.Val]
@@ -750,20 +767,44 @@ func evalDefault(cs DefCase) (string, string) {
 	}); err != nil {
 		return "error", err.Error()
 	}
-	desc := fmt.Sprintf("panic(%s) in the handler of %s (header written: %v, Logger installed: %v), default log handler", pv.name, pat, cs.Header, cs.Logger)
+	desc := fmt.Sprintf("panic(%s) in the handler of %s (header written: %v, Logger installed: %v, %d-byte padding header), default log handler", pv.name, pat, cs.Header, cs.Logger, cs.Pad)
 	rw := fx.NewRW()
 	var escaped any
 	didPanic := false
-	restore := silence()
+	rq := fx.Req("GET", "example.test", "/p/250ms")
+	rq.Header.Set("Authorization", "Bearer SECRET-VALUE")
+	if cs.Pad > 0 {
+		rq.Header.Set("X-Pad", strings.Repeat("p", cs.Pad))
+	}
+	restore := captureFDs()
 	func() {
 		defer func() {
 			if p := recover(); p != nil {
 				escaped, didPanic = p, true
 			}
 		}()
-		f.ServeHTTP(rw, fx.Req("GET", "example.test", "/p/250ms"))
+		f.ServeHTTP(rw, rq)
 	}()
-	restore()
+	logged := restore()
+	if !pv.abort && !didPanic {
+		// the record of the default handler names the route, its parameter and the request line, carries the
+		// panic value and no credential
+		plain := ansiRe.ReplaceAllString(logged, "")
+		for _, must := range []string{pat, "250ms", "GET /p/250ms"} {
+			if !strings.Contains(plain, must) {
+				return "record-incomplete", fmt.Sprintf("the logged record (%d bytes) does not contain %q: %s", len(plain), must, desc)
+			}
+		}
+		if strings.Count(plain, "250ms") < 2 {
+			return "record-incomplete", fmt.Sprintf("the logged record (%d bytes) names the request line but not the parameter value: %s", len(plain), desc)
+		}
+		if e, ok := thrown.(error); ok && !strings.Contains(plain, e.Error()) {
+			return "record-incomplete", fmt.Sprintf("the logged record (%d bytes) does not carry the panic value %q: %s", len(plain), e.Error(), desc)
+		}
+		if strings.Contains(plain, "SECRET-VALUE") {
+			return "secret-logged", "the logged record contains the Authorization value: " + desc
+		}
+	}
 	if pv.abort {
 		if !didPanic || escaped != thrown {
 			return "abort-not-reraised", fmt.Sprintf("http.ErrAbortHandler must be re-raised unchanged, got %v: %s", escaped, desc)
@@ -788,7 +829,7 @@ func evalDefault(cs DefCase) (string, string) {
 
 func runDefault(c *mc.Ctx, r *mc.Result) {
 	pvs := panicVals()
-	r.Bounds["default-handler"] = fmt.Sprintf("%d parameter names (attribute keys of the log records and others) x {parameter, catch-all} x %d panic values x {nothing written, header written} x {Recovery, Recovery+Logger}, with fox's default log handler", len(defNames), len(pvs))
+	r.Bounds["default-handler"] = fmt.Sprintf("%d parameter names (attribute keys of the log records and others) x {parameter, catch-all} x %d panic values x {nothing written, header written} x {Recovery, Recovery+Logger} (+ request heads padded to 8..70 KiB), with fox's default log handler whose output is captured: the record names route, parameter value and request line, carries the panic value and no credential", len(defNames), len(pvs))
 	idx := 0
 	for _, n := range defNames {
 		for _, ca := range []bool{false, true} {
@@ -799,12 +840,18 @@ func runDefault(c *mc.Ctx, r *mc.Result) {
 						if !c.Mine(idx) {
 							continue
 						}
-						cs := DefCase{Name: n, CatchAll: ca, Val: vi, Header: hd, Logger: lg}
-						class, msg := evalDefault(cs)
-						r.Evaluations++
-						r.DistinctNontrivial++
-						if class != "" {
-							r.Violate("default-handler", class, msg, cs)
+						// request heads below, around and above the 16 KiB buffer the pretty handler pools
+						for _, pad := range []int{0, 8 << 10, 15 << 10, 16 << 10, 20 << 10, 70 << 10} {
+							if pad != 0 && (vi > 1 || lg) {
+								continue // padded heads with the first two panic values, Recovery alone
+							}
+							cs := DefCase{Name: n, CatchAll: ca, Val: vi, Header: hd, Logger: lg, Pad: pad}
+							class, msg := evalDefault(cs)
+							r.Evaluations++
+							r.DistinctNontrivial++
+							if class != "" {
+								r.Violate("default-handler", class, msg, cs)
+							}
 						}
 					}
 				}
